@@ -454,6 +454,9 @@ func stmtStart(out string, t Top) int {
 		if strings.TrimSpace(first) == "" {
 			return -1 // an empty first line cannot be located in the output: skip this case
 		}
+		if strings.Count("\n"+out, "\n"+first+"\n") != 1 {
+			return -1 // the same raw text occurs more than once: its position is ambiguous, skip this case
+		}
 		return lineStart(out, first)
 	case "mart":
 		i := labelStart(out, t.Name)
